@@ -118,7 +118,21 @@ class PartsModel:
         return mk(out)
 
     def percent(self, I, fmt, arg):
-        return NotImplemented
+        """'...%s...' % x  with one string argument"""
+        if fmt.py is None or fmt.py.count("%") != 1 or "%s" not in fmt.py:
+            return NotImplemented
+        if isinstance(arg, STuple):
+            if len(arg.items) != 1:
+                return NotImplemented
+            arg = arg.items[0]
+        v = self.format_value(I, arg, "s", None)
+        if v is NotImplemented:
+            return NotImplemented
+        p = parts_of(v)
+        if p is None:
+            return OPAQUE
+        a, b = fmt.py.split("%s")
+        return mk([("lit", a)] + p + [("lit", b)])
 
     def truth(self, I, v):
         p = parts_of(v)
